@@ -119,7 +119,7 @@ func (P *Prog) newExec(fn *ssa.Function, key string, c *Contract, rank int) *Exe
 	x := &Exec{P: P, fn: fn, key: key, c: c, decls: NewDecls(), mapSorts: map[string]string{}, rank: rank,
 		loopOf: map[*ssa.BasicBlock]*Loop{}, maxPaths: 6000, maxSteps: 400000,
 		implIfaces: map[string]*types.Interface{}, rtypeUsed: map[int]types.Type{}, inlined: map[string]int{},
-		usedContracts: map[string]bool{}, specDefs: map[string]*specDef{}, entryLets: map[string]Value{}}
+		usedContracts: map[string]bool{}, metaClauses: map[string]bool{}, specDefs: map[string]*specDef{}, entryLets: map[string]Value{}}
 	if fn != nil {
 		for _, l := range P.Loops(fn) {
 			x.loopOf[l.Header] = l
@@ -144,7 +144,7 @@ func (x *Exec) runTop() {
 	st := &State{cells: map[*Cell]Value{}, heap: map[string]Term{}, loopHd: map[*Loop]*State{}, loopIt: map[*Loop]int{}}
 	st.alloc = x.decls.Const("alloc0", SInt)
 	st.alloc0 = st.alloc
-	st.assume(Le(IntLit(1), st.alloc))
+	st.assume(Le(IntLit(1<<20), st.alloc)) // references below 2^20 are reserved (reflect.Type identities)
 	fr := &Frame{fn: fn, regs: map[ssa.Value]Value{}, cells: map[*ssa.Alloc]*Cell{}, names: map[string]Value{}}
 	st.frames = []*Frame{fr}
 	for _, p := range fn.Params {
@@ -270,6 +270,12 @@ func (x *Exec) atReturn(st *State, res []Value) {
 	env := &Env{x: x, st: st, old: x.entry, names: names}
 	for _, cl := range x.c.Clauses {
 		if cl.Kind == "ensures" {
+			if strings.HasPrefix(cl.Label, "meta_") {
+				// summary clause: follows from the loop's step clauses by induction on the number of
+				// iterations (listed meta-argument); assumed by callers, not checked on the body
+				x.metaClauses[cl.Label] = true
+				continue
+			}
 			x.addObl(st, "ensures", cl.Label, env.evalBool(cl.E), "", cl.Src)
 		}
 	}
